@@ -3,11 +3,55 @@ import drivers.c13  # noqa: F401   (registers the drivers)
 
 PROP = "C13"
 LEVEL = "exploration"
-LEVEL_TEXT = "tbd"
-LEVEL_NOTE = "tbd"
+LEVEL_TEXT = ("Bounded run-time contracts only: every public route to a reduced density matrix or local expectation value "
+              "(exact, cluster, loop expansion, generic compressed contraction, 1D canonical / environment, 2D plaquette and "
+              "3D cell environments with an untruncating cap, operator trace / partial transpose) is executed on small states "
+              "(<= 9 sites) and compared with <psi|G|psi>[/<psi|psi>] and the partial trace computed by numpy from the dense "
+              "state, with complex non-hermitian operators on site tuples in arbitrary order so that transposition, "
+              "conjugation, site-order and normalisation mistakes are visible. Nothing is proved for unbounded sizes.")
+LEVEL_NOTE = ("Trusted: numpy einsum / matmul / eigvalsh reference on the raw tensor data of the inputs (the dense state is "
+              "contracted by the driver itself, not by quimb); tolerances 1e-9 (double) and 3e-4 (single) relative to "
+              "|G| x <psi|psi>, widened x3..x30 for routes that run QR/SVD sweeps or simple-update gauging; domain bounds as "
+              "stated per driver.")
 TECHNIQUE = "run-time contracts on the real functions vs independent numpy references over a stated bounded domain (bounded stand-in)"
 E1 = []
 PROVIDERS = []
-TRUSTED = ["numpy einsum / linear algebra reference computations"]
-ASSUMPTIONS = []
-EXPLANATION = "tbd"
+TRUSTED = [
+    "numpy einsum / matmul / trace / eigvalsh on dense arrays (reference semantics of state, partial trace, expectation)",
+    "the driver's own pairwise contraction of the raw tensor data (including 10**exponent) as the denotation of a network",
+    "cotengra path optimisers return valid contraction paths (process pools disabled inside the harness workers)",
+]
+ASSUMPTIONS = [
+    "states: MPS open L<=8 / periodic L<=7 (bonds 1..3 mixed, site dims 2..3 mixed), PEPS up to 3x3 (bond<=3, open and "
+    "periodic directions, 1xN), PEPS3D up to 2x2x3, random connected graph states / trees <= 8 sites with int / str / tuple "
+    "labels, graph states with one hyper index (exact routes only); dtypes float32/64, complex64/128; stored exponent "
+    "absent / set on the attribute / produced by equalize_norms_",
+    "operators: random complex non-symmetric non-hermitian matrices on 1..3 sites, site tuples in random order incl. "
+    "reversed neighbours and the two ends; normalised and unnormalised values (and normalized='return')",
+    "approximate routes are run with max_bond=4096 (above every exact bond in the domain) and cutoff=0 so that they are "
+    "exact; cluster / loop-expansion routes only with a cluster / generalized loop spanning all sites (autoreduce only on "
+    "networks without degree-1 sites; simple loops only on rings)",
+    "simple-update gauges are produced by gauge_all_simple_(gauges=...) and the reference state is rebuilt by the driver "
+    "from the gauged tensors and the gauge vectors (so a defect of the gauging itself is not attributed to C13)",
+    "option combinations that quimb documents as unsupported by an explicit NotImplementedError (canonical routes on "
+    "periodic MPS, mode='full-bond' with equalize_norms) are outside the domain; reduce=True only for two-site terms",
+    "magnetization / correlation are stated for normalised states; partial_trace_compress / logneg_subsys are compared "
+    "through the spectrum of the compressed state (its basis is a compressed Schmidt basis), double precision, blocks of "
+    "dimension <= 300, default lateral method 'isvd' only for uniform bond dimension (scipy 1.18 interpolative svd fails "
+    "on rectangular LinearOperators)",
+    "tolerances: 1e-9 (double) / 3e-4 (single) x |G|_F x <psi|psi>, x3 for 1D canonical routes, x10 generic compressed "
+    "contraction, x30 boundary contraction and simple-update gauged clusters, x100..300 loop expansions with gauges",
+]
+EXPLANATION = (
+    "E3 (bounded): six drivers. (1) tnag-exact-cluster-loop-routes: make_reduced_density_matrix, partial_trace_exact "
+    "(matrix / array / tensor, normalised / not / 'return'), local_expectation_exact, compute_local_expectation_exact, "
+    "get_cluster / partial_trace_cluster / local_expectation_cluster / compute_local_expectation_cluster (plain, simple-update "
+    "gauged, loopunion), local_expectation_gloop_expand / compute_ / norm_gloop_expand, local_expectation_sloop_expand. "
+    "(2) generic-compressed-routes: TensorNetworkGenVector.partial_trace / local_expectation / compute_local_expectation "
+    "(flatten, reduce, symmetrized, contract_compressed / contract_around). (3) mps-canonical-and-environment-routes: "
+    "partial_trace_to_dense_canonical, local_expectation_canonical, compute_local_expectation(_canonical / _via_envs), "
+    "magnetization, correlation, partial_trace_to_mpo, partial_trace_compress, logneg_subsys. (4) lattice-boundary-routes-2d: "
+    "PEPS.compute_local_expectation, compute_norm, normalize, compute_plaquette_environments over mode x canonize x layering "
+    "x autogroup. (5) lattice-boundary-routes-3d: PEPS3D.partial_trace, partial_trace_cluster, compute_local_expectation. "
+    "(6) operator-trace-and-partial-transpose. Every value is compared with numpy on the dense state built by the driver; "
+    "reduced density matrices are checked for shape, hermiticity, trace and site order.")
